@@ -186,6 +186,18 @@ class Ctx:
         store/goto itself or return a ('forks'|'done') action); without kfn the result goes to dst/tgt"""
         return s.eng.push_call(s.st, s.fr, name, args, s.dst, s.tgt, kfn, kdata)
 
+class CtxK(Ctx):
+    """call context whose result is handed to a Python continuation instead of a MIR destination"""
+    __slots__ = ('after', 'kdata')
+    def ret(s, v): return s.after(s.eng, s.st, s.fr, s.kdata, v)
+    def forks(s, alts):
+        out = []
+        for cond, act in alts:
+            if isinstance(act, Panic): out.append((cond, ('panic', act.msg)))
+            elif callable(act): out.append((cond, act))
+            else: out.append((cond, (lambda st2, fr2, act=act: s.after(s.eng, st2, fr2, s.kdata, act))))
+        return ('forks', out)
+
 # ---------------------------------------------------------------------------- engine
 
 class Engine:
@@ -201,7 +213,7 @@ class Engine:
         s.index = None; s.closures = None
         s.inlined = set(); s.modelled = set(); s.opaque_calls = set()
         s.t_solver = 0.0
-        s._promoted = {}
+        s._promoted = {}; s.const_heap = {}
         s.atom_strings = False; s.hash_order_symbolic = False; s.eq_hook = None; s.fnitem_hook = None
         s._build_index()
 
@@ -301,9 +313,12 @@ class Engine:
             v = s.read_ref(st, v)
         return v
     def read_ref(s, st, r):
-        v = st.heap[r.base] if isinstance(r.base, int) else r.base
+        v = s.cell(st, r.base) if isinstance(r.base, int) else r.base
         for step in r.path: v = s.nav(v, step)
         return s.finish(v)
+    def cell(s, st, c):
+        try: return st.heap[c]
+        except KeyError: return s.const_heap[c]
     def finish(s, v):
         if isinstance(v, (EnumVar, LazyVar)): raise EngineError('dangling downcast')
         return v
@@ -413,7 +428,7 @@ class Engine:
         raise EngineError(f'locate {pl}')
     def load(s, st, fr, pl):
         b, p = s.locate(st, fr, pl)
-        v = st.heap[b] if isinstance(b, int) else b
+        v = s.cell(st, b) if isinstance(b, int) else b
         if v is None and isinstance(b, int) and not p:
             raise EngineError(f'read of uninitialised local {pl} in {fr.fn.name}')
         for i, step in enumerate(p): v = s.nav(v, step)
@@ -426,10 +441,10 @@ class Engine:
         if not isinstance(b, int):
             raise EngineError(f'store through read-only input {b!r} at {pl} in {fr.fn.name}')
         if not p: st.heap[b] = val
-        else: st.heap[b] = s.set_path(st.heap[b], p, val)
+        else: st.heap[b] = s.set_path(s.cell(st, b), p, val)
     def write_ref(s, st, r, val):
         if not isinstance(r.base, int): raise EngineError(f'write through read-only input {r.base!r}')
-        st.heap[r.base] = s.set_path(st.heap[r.base], r.path, val) if r.path else val
+        st.heap[r.base] = s.set_path(s.cell(st, r.base), r.path, val) if r.path else val
 
     # ---- operands
     def operand_type(s, fr, o):
@@ -448,6 +463,7 @@ class Engine:
         m = re.match(r'^(?:no_retag )?(?:copy|move) (.*)$', o, re.S)
         if m: return s.load(st, fr, parse_place(m.group(1)))
         if o.startswith('const '): return s.const(st, fr, o[6:])
+        if re.match(r'^[A-Za-z_<]', o) and '::' in o: return FnItem(o)      # bare function item
         raise EngineError('operand? ' + o)
     def const(s, st, fr, c):
         c = c.strip()
@@ -502,17 +518,18 @@ class Engine:
         if len(hit) != 1: raise EngineError(f'promoted {name} -> {hit}')
         # evaluate the constant body in a scratch state that shares this heap (constants are pure)
         fn = s.fns[hit[0]]
-        sub = State(); sub.heap = st.heap; fr = Frame(fn); sub.frames = [fr]
+        sub = State(); fr = Frame(fn); sub.frames = [fr]
         outs = s._run_sub(sub)
         if len(outs) != 1 or outs[0].kind != 'ret': raise EngineError('promoted evaluation forked/panicked: ' + name)
+        s.const_heap.update(outs[0].st.heap)      # constants are pure: their cells are shared by every state
         s._promoted[key] = outs[0].value
         return outs[0].value
     def _run_sub(s, sub):
-        save = s.out; s.out = []
+        save = s.out; savew = getattr(s, 'work', None); s.out = []; s.work = None
         try:
             s.run(sub); return s.out
         finally:
-            s.out = save
+            s.out = save; s.work = savew
 
     # ---- ADT aggregates
     def adt(s, path, argstrs, kind, st, fr, as_const=False):
@@ -522,10 +539,10 @@ class Engine:
         last = segs[-1]
         args = tuple(s.operand(st, fr, a) for a in argstrs)
         if s.decls is not None and len(segs) >= 2:
-            en = segs[-2].replace('r#', '')
-            if en in s.decls.enums and any(v[0] == last for v in s.decls.enums[en]):
-                idx = s.decls.enum_index(en, last)
-                return Enum(en, bv64(idx), {last: args})
+            key, vs = s.decls.find_enum([x.replace('r#', '') for x in segs[:-1]], last)
+            if key is not None:
+                idx = s.decls.enum_index(key, last)
+                return Enum(key, bv64(idx), {last: args})
         if as_const:
             if s.decls is not None and last in s.decls.structs and s.decls.structs[last][0] == 'unit': return Agg((), last)
             return FnItem(path)
@@ -647,6 +664,8 @@ class Engine:
         return None
 
     def run(s, st0):
+        outer = getattr(s, 'work', None)
+        if outer: raise EngineError('re-entrant run() would clobber the worklist; use _run_sub')
         s.work = [st0]
         while s.work:
             st = s.work.pop()
@@ -701,7 +720,7 @@ class Engine:
             return s.jump(st, fr, ps[1])
         if k == 'switch':
             v = s.operand(st, fr, ps[1]); t = s.term(v, s.operand_type(fr, ps[1]))
-            arms = []; seen = []
+            groups = {}; order = []; seen = []
             for kv, tgt in ps[2]:
                 if kv is None:
                     if fr.fn.blocks[tgt] == ['unreachable;']: continue
@@ -710,7 +729,9 @@ class Engine:
                 else:
                     seen.append(kv)
                     cond = (Not(t) if kv == 0 else t) if is_bool(t) else t == BitVecVal(kv, t.size())
-                arms.append((cond, (lambda n, f, tgt=tgt: s.jump(n, f, tgt))))
+                if tgt not in groups: groups[tgt] = []; order.append(tgt)
+                groups[tgt].append(cond)
+            arms = [((Or(groups[tgt]) if len(groups[tgt]) > 1 else groups[tgt][0]), (lambda n, f, tgt=tgt: s.jump(n, f, tgt))) for tgt in order]
             return ('forks', arms)
         if k == 'return':
             return s.do_return(st, fr)
@@ -795,6 +816,17 @@ class Engine:
         raise EngineError(f'call_closure on {c!r}')
     def _post(s, st, fr, r):
         return r
+    def call_by_name(s, st, fr, callee, args, after, kdata=None):
+        """dispatch `callee` (call-site text) through models / the dump; the result goes to after(eng, st, fr, kdata, value)"""
+        ctx = CtxK(s, st, fr, None, callee, tuple('?' for _ in args), tuple(args), None); ctx.after = after; ctx.kdata = kdata
+        for pat, h in s.overrides + s.models:
+            if pat.search(callee):
+                r = h(ctx)
+                if r is not NotImplemented:
+                    s.modelled.add(pat.pattern); return r
+        name = s.resolve(callee)
+        if name is not None: return s.push_call(st, fr, name, tuple(args), None, None, after, kdata)
+        raise Unmodelled(callee)
 
 class _Missing(tuple):
     """fields of an enum variant that this value cannot be in (reads are on infeasible paths or are type puns)"""
